@@ -1,4 +1,4 @@
-import PydraModel.Sched.Failure
+import PydraModel.Sched.Interleaved
 /-
 C16 — The max_concurrent limit is never exceeded.
 
@@ -43,6 +43,27 @@ theorem C16_k1 {wf : Wf} {sorted : List NodeId} (hw : WellFormed wf sorted) {st 
   · exact hc
   · have := C16_full hw hi [c, c'] (by simp [hc]) (by intro x hx; simp at hx; rcases hx with rfl | rfl <;> assumption)
     simp at this
+
+/-! ### the finer semantics: the disk changes *during* polls (`Sched/Interleaved.lean`) -/
+
+/-- instants of the finer semantics.  The ground truth and the pending futures at any moment *inside* a poll are
+    those of such an instant too: environment moves do not depend on the tables, and futures do not change while
+    the loop is polling. -/
+def InstantI (wf : Wf) (k : Option Nat) (sorted : List NodeId) (st : St) : Prop :=
+  ∃ sched st0 es, SchedOK sched ∧ (runAsyncI wf k sorted sched).state? = some st0 ∧ applyEvs st0 es = some st
+
+theorem sinv_instantI {wf : Wf} {k : Option Nat} {sorted : List NodeId} (hw : WellFormed wf sorted) {st : St}
+    (hi : InstantI wf k sorted st) : SInv wf k st := by
+  obtain ⟨sched, st0, es, hok, h0, h1⟩ := hi
+  exact sinv_applyEvs es (good_runAsyncI hw.topo sched hok h0).s h1
+
+/-- C16, FULL, also when bodies start and finish while the loop is polling -/
+theorem C16_full_interleaved {wf : Wf} {k : Nat} {sorted : List NodeId} (hw : WellFormed wf sorted) {st : St}
+    (hi : InstantI wf (some k) sorted st) (running : List Ck) (hnd : running.Nodup)
+    (hrun : ∀ c, c ∈ running → st.w c = .locked) : running.length ≤ k := by
+  have hs := sinv_instantI hw hi
+  have hsub : ∀ c, c ∈ running → c ∈ st.futures := fun c hc => hs.lockedPending c (hrun c hc)
+  exact Nat.le_trans (hnd.length_le_of_subset hsub) (hs.limit k rfl)
 
 /-! ### documentation of the repaired defect D11
 
